@@ -189,3 +189,83 @@ Proof.
   apply (verdict_sound_partial (map snd p) vs vd Hw E1); [|exact Hg].
   exact (cond_verdicts_subset p vs vsc E1 E2 vd Hin).
 Qed.
+
+(* ----- the run without sections fails exactly when the run with sections does ----- *)
+
+Lemma handle_varassign_not_panic s i a d : handle_varassign s i a d <> Panic.
+Proof.
+  unfold handle_varassign, constant_value.
+  destruct (is_constant (vi_var (s_vars s (a_var a))));
+    repeat (cbv iota beta;
+            match goal with
+            | |- context [match ?x with _ => _ end] => destruct x
+            end);
+    discriminate.
+Qed.
+
+Lemma handle_varassign_ok s i a d : exists s' vs, handle_varassign s i a d = Ok (s', vs).
+Proof.
+  destruct (handle_varassign s i a d) as [[s' vs]| |] eqn:E.
+  - exists s', vs; reflexivity.
+  - exfalso; exact (handle_varassign_not_panic _ _ _ _ E).
+  - exfalso; exact (handle_varassign_total _ _ _ _ E).
+Qed.
+
+Lemma sim_handle_expr_ok s sc a sc' :
+  sim s sc -> handle_expr sc a = Ok sc' -> exists s', handle_expr s a = Ok s'.
+Proof.
+  intro H. unfold handle_expr.
+  pose proof (sim_fold_read (uses (a_val a)) s sc H) as H1.
+  assert (Hn : s_names (fold_left read_one (uses (a_val a)) s) = s_names (fold_left read_one (uses (a_val a)) sc)) by apply H1.
+  rewrite Hn. rewrite (closure_ext _ _ (sim_refs _ _ H1)).
+  destruct (a_op a); try (intros _; eexists; reflexivity);
+    (destruct (closure _ _ _); try discriminate; intros _; eexists; reflexivity).
+Qed.
+
+Lemma sim_check_line_ok s sc i c l sc' vsc :
+  sim s sc -> check_line_c sc i c l = Ok (sc', vsc) -> exists s' vs, check_line s i l = Ok (s', vs).
+Proof.
+  intros H. unfold check_line, check_line_c.
+  assert (Hp : s_path s = s_path sc) by apply H.
+  destruct (update_include_path sc l) as [sc1| |] eqn:U2; try discriminate.
+  assert (exists s1, update_include_path s l = Ok s1) as [s1 U1].
+  { revert U2. unfold update_include_path. rewrite Hp. destruct (l_lineno l =? 1)%N; [eexists; reflexivity|].
+    destruct (ipath_pop_until (s_path sc) (l_file l)); try discriminate. eexists; reflexivity. }
+  rewrite U1. pose proof (sim_update_include_path _ _ _ _ _ H U1 U2) as H1.
+  destruct (l_body l) as [a|]; [|intros _; eexists; eexists; reflexivity].
+  destruct (handle_varassign sc1 i a c) as [[sc2 vsc2]| |] eqn:V2; try discriminate.
+  destruct (handle_varassign_ok s1 i a false) as (s2 & vs2 & V1). rewrite V1.
+  destruct (sim_handle_varassign _ _ _ _ _ _ _ _ _ H1 V1 V2) as [H2 _].
+  destruct (handle_expr sc2 a) as [sc3| |] eqn:X2; try discriminate.
+  destruct (sim_handle_expr_ok _ _ _ _ H2 X2) as [s3 X1]. rewrite X1.
+  intros _. eexists; eexists; reflexivity.
+Qed.
+
+Lemma sim_check_from_ok : forall p s sc i per,
+  sim s sc -> check_from_c sc i p = Ok per -> exists vs, check_from s i (map snd p) = Ok vs.
+Proof.
+  induction p as [|[c l] p IH]; intros s sc i per H E; simpl in *; [eexists; reflexivity|].
+  destruct (check_line_c sc i c l) as [[sc' vc1]| |] eqn:L2; try discriminate.
+  destruct (check_from_c sc' (S i) p) as [rc| |] eqn:R2; try discriminate.
+  destruct (sim_check_line_ok _ _ _ _ _ _ _ H L2) as (s' & v1 & L1). rewrite L1.
+  destruct (sim_check_line _ _ _ _ _ _ _ _ _ H L1 L2) as [H' _].
+  destruct (IH _ _ _ _ H' R2) as [r1 R1]. rewrite R1. eexists; reflexivity.
+Qed.
+
+Theorem cond_verdicts_subset_total (p : cprogram) (vsc : list verdict) :
+  check_c p = Ok vsc -> exists vs, check (map snd p) = Ok vs /\ incl vsc vs.
+Proof.
+  intro E2. assert (exists vs, check (map snd p) = Ok vs) as [vs E1].
+  { revert E2. unfold check, check_c, check_lines_c.
+    destruct (check_from_c new_scope 0 p) as [per| |] eqn:E; try discriminate. intros _.
+    eapply sim_check_from_ok; [apply sim_refl_new | exact E]. }
+  exists vs. split; [exact E1 | exact (cond_verdicts_subset p vs vsc E1 E2)].
+Qed.
+
+Theorem verdict_sound_cond_total (p : cprogram) (vsc : list verdict) (vd : verdict) :
+  wf_program (map snd p) = true -> check_c p = Ok vsc -> In vd vsc ->
+  guard (map snd p) vd = true -> deletable (map snd p) (vd_flagged vd).
+Proof.
+  intros Hw E2 Hin Hg. destruct (cond_verdicts_subset_total p vsc E2) as (vs & E1 & _).
+  exact (verdict_sound_cond p vs vsc vd Hw E1 E2 Hin Hg).
+Qed.
